@@ -122,13 +122,13 @@ def run(prop, tier, seed):
         if gap:
             print('COVERAGE-GAP property=C11 link-state TLV types registered by yabgp but unknown to spec/WireTlv.tla: %s' % gap)
         jobs = []
-        grids = {f: gen(f, 1) for f in ('capgrid', 'attrgrid', 'mpgrid', 'nestgrid')}
+        grids = {f: gen(f, 1) for f in ('capgrid', 'attrgrid', 'mpgrid', 'nestgrid', 'fslen')}
         for ep, hx in ls['vecs'] + sid['vecs']:
             jobs.append((ep, hx, 'tlvgrid'))
         for f, g in grids.items():
             for ep, hx in g['vecs']:
                 jobs.append((ep, hx, f))
-                if ep == 'Update.parse':
+                if ep == 'Update.parse' and f != 'fslen':
                     jobs.append(('Update.parse/as2', hx, f))
         for ep, hx in short['vecs']:
             n = len(hx) // 2
